@@ -24,10 +24,9 @@ GLOBAL_TRUSTED = [
 ]
 
 
-def groups_for(pid):
+def groups_for(pid, only_group=None):
     gs = []
-    for d in sorted(glob.glob(os.path.join(VERIF, 'specs', '*', 'spec.py'))):
-        g = os.path.basename(os.path.dirname(d))
+    for g in ([only_group] if only_group else runner.enabled_groups()):
         spec = runner.load_spec(g)
         if pid in spec.get('properties', []):
             gs.append(spec)
@@ -75,9 +74,7 @@ def prepare_group(spec):
 def check_property(pid, tier, only_group=None, only_unit=None, verbose=False):
     t0 = time.time()
     seed = int(os.environ.get('VERIF_SEED', '0') or 0)
-    specs = groups_for(pid)
-    if only_group:
-        specs = [s for s in specs if s['name'] == only_group]
+    specs = groups_for(pid, only_group)
     if not specs:
         print('no checks registered for %s' % pid)
         return 2
